@@ -282,8 +282,20 @@ def run(ctx):
         for m in muts:
             res.check(id(m.node) in allowed, "E-ONLY", f, m.text(), "mutation", f"the hypergraph is modified other than through remove_node / remove_edge: {m.why}", loc(m.fi, m.node))
         if not muts:
-            res.violation("E-ONLY", f, "hypergraph.remove_node(...)", "mutation", "filter_hypergraph never modifies the hypergraph", loc(v.fi, v.fi.node))
+            handed_on = any(isinstance(n, ast.Lambda) for n in ast.walk(v.fi.node)) or any(isinstance(n, ast.Call) and ctx.callees(v.fi, n) and any(isinstance(x, ast.Name) and x.id == v.fi.params[0].arg for a_ in list(n.args) + [k.value for k in n.keywords] for x in ast.walk(a_)) for n in walk_no_nested(v.fi.node))
+            res.add("E-ONLY", f, "hypergraph.remove_node(...)", "mutation", "unknown" if handed_on else "violation", "filter_hypergraph never modifies the hypergraph" if not handed_on else "no mutation found in filter_hypergraph itself; the hypergraph (or its bound methods) is handed to helpers / lambdas", loc(v.fi, v.fi.node))
     # ---- get_svh
+    # ---- the removal primitives filter_hypergraph relies on: "nothing else about the surviving hyperedges changes" when nodes
+    #      are removed with keep_edges=True hinges on remove_node re-inserting the shrunken hyperedge with its weight and metadata
+    from .. import rules_container as RC
+    from ._containers import PATH_RULES
+
+    for r_ in ("P-SHRINK", "P-NODE", "P-LOOPVAR", "P-DEL"):
+        res.rules[r_] = PATH_RULES[r_]
+    for cls in ("Hypergraph", "TemporalHypergraph", "MultiplexHypergraph", "DirectedHypergraph"):
+        if "remove_node" in ctx.methods(cls):
+            with res.guard(f"RC.check_remove_node(ctx, res, {cls})"):
+                RC.check_remove_node(ctx, res, cls)
     with res.guard("get_svh"):
         b = ctx.view("statistical_filters._get_bipartite_representation")
         fb = b.fi.short
